@@ -1,17 +1,19 @@
-"""C16, closed mode — `BidsDataset(root).validate(check_for_warnings)` against `Bids.validateDatasetClosed`.
+"""C16, closed mode — `BidsDataset(root).validate(check_for_warnings)` against `Bids.validateDatasetClosedRaw`.
 
-Driver op `c16.closed` (lean/HedVerif/Driver/C16.lean, model lean/HedVerif/Model/ClosedDataset.lean): from the directory
-tree with the JSON contents of its sidecars, the schema environment of the C01 model (our own XML reading, no
-definitions: `BidsDataset.validate` passes none) and the assembled frame of each events file, Lean computes the
-participating files, the merged sidecar of each, the issues of every participating sidecar (`SidecarV.validateClosed`)
-and of every participating events file (`Tabular.validateClosed`), labelled with their files, sidecars first.
-Nothing is recorded from the real validator.  The frame of a file is built by the real `TabularInput` from the file
-and the sidecar *merged by the model* (`c16.group`), as in closed C07.
+Driver op `c16.closed` (lean/HedVerif/Driver/C16.lean; models lean/HedVerif/Model/ClosedDataset.lean and
+ClosedDatasetRaw.lean): from the directory tree with the content of every file — the JSON of the sidecars, the header
+and the raw cells of the events files — and the schema environment of the C01 model (our own XML reading, no
+definitions: `BidsDataset.validate` passes none), Lean computes the participating files, the merged sidecar of each,
+the issues of every participating sidecar (`SidecarV.validateClosed`) and of every participating events file
+(`Tabular.validateClosedRaw`: assembly, file layer and string validator composed), labelled with their files, sidecars
+first.  Nothing is recorded from, or built by, the real validator.
 
 Compared with the real `BidsDataset.validate`: per file name, the complete sorted issue list
 (sidecars: kind, code, severity, column, key; events files: code:kind, severity, ec_row, ec_column), and for fully
-modelled trees the whole list.  Objects holding a string outside the C01 fragment, sidecars declaring definitions etc.
-are answered `unmodelled`: the issues labelled with that file name are skipped and counted.
+modelled trees the whole list.  Objects outside the closed fragment (a string outside the C01 model, a Delay group, a
+sidecar declaring definitions, a frame that depends on the iteration order of the reference set, an onset spelling
+off the 1/8 s grid, a malformed cell in a checked row) are answered `unmodelled`: the issues labelled with that file
+name are skipped and counted.
 """
 import collections
 import json
@@ -25,41 +27,54 @@ from harness.props import c01, c07, c08, closed_c07, closed_c08
 BUDGET_S = 70
 EXCLUDED = ['sourcedata', 'derivatives', 'code', 'stimuli', 'phenotype']
 CAT_VALUES = ["go", "stop", "1", "left", "n/a", "zz"]
-VAL_VALUES = ["v1", "3", "w 3", "n/a", "7.5"]
+VAL_VALUES = ["v1", "3", "w 3", "n/a", "7.5", "NA", "null", "None"]
 
 
-class FileReal(c07.Real):
-    """c07's adapter with the table taken from an events file and a given (merged) sidecar"""
-
-    def build(self, spec):
-        import io
-        from hed import TabularInput, Sidecar
-        if "path" not in spec:
-            return super().build(spec)
-        sc = Sidecar(io.StringIO(json.dumps(spec["merged"]))) if spec["merged"] is not None else None
-        return TabularInput(file=spec["path"], sidecar=sc, name=spec["path"])
+def parse_tsv(text):
+    """header and rows of cells of a generated TSV text (no quoting, no embedded tabs or newlines)"""
+    lines = text.split("\n")
+    if lines and lines[-1] == "":
+        lines.pop()
+    rows = [l.split("\t") for l in lines]
+    return rows[0], rows[1:]
 
 
 def gen_tsv(rng, g, uid):
+    """an events table as text: columns in any order, sometimes no onset column, columns no sidecar describes,
+    n/a and empty cells, onsets on the 1/8 s grid in several spellings"""
     n = rng.randint(1, 4)
     onsets = rng.sample(range(1, 60), n)
     if rng.random() < 0.7:
         onsets.sort()
-    cols = ["onset", "duration"] + [c for c in closed_c08.NAMES if rng.random() < 0.45]
+    has_onset = rng.random() < 0.85
     hed = rng.random() < 0.5
+    header = (["onset"] if has_onset else []) + (["duration"] if rng.random() < 0.8 else []) + \
+        [c for c in closed_c08.NAMES if rng.random() < 0.45] + (["HED"] if hed else []) + \
+        rng.sample(["trial", "sample"], rng.choice([0, 0, 1]))
+    if not header:
+        header = ["trial"]
+    if rng.random() < 0.4:
+        rng.shuffle(header)
     rows = []
     for t in onsets:
-        row = [str(t / 8), "n/a"]
-        for c in cols[2:]:
-            row.append(rng.choice(CAT_VALUES) if rng.random() < 0.7 else rng.choice(VAL_VALUES))
-        if hed:
-            if rng.random() < 0.25:
-                row.append("n/a")
+        row = []
+        for c in header:
+            u = rng.random()
+            if c == "onset":
+                row.append("n/a" if u < 0.05 else str(t // 8) if (t % 8 == 0 and u < 0.5) else str(t / 8))
+            elif c == "duration":
+                row.append(rng.choice(["n/a", "0.5", ""]))
+            elif c == "HED":
+                if u < 0.25:
+                    row.append(rng.choice(["n/a", ""]))
+                else:
+                    uid[0] += 1
+                    row.append(closed_c07.fragment(rng, g, uid[0], has_onset))
+            elif c in ("trial", "sample"):
+                row.append(str(rng.randint(1, 9)))
             else:
-                uid[0] += 1
-                row.append(closed_c07.fragment(rng, g, uid[0], True))
+                row.append("" if u < 0.05 else rng.choice(CAT_VALUES) if u < 0.7 else rng.choice(VAL_VALUES))
         rows.append(row)
-    header = cols + (["HED"] if hed else [])
     return "\n".join("\t".join(r) for r in [header] + rows) + "\n", onsets
 
 
@@ -153,7 +168,7 @@ def run_closed(ctx, trees=None):
     t0 = time.time()
     c08.install_recorders()
     c08.tables()
-    real = FileReal()
+    real = c07.Real()
     variant = c07.detect_variant(real)
     real.cleanup()
     v = c01.Vocab("8.3.0", pluralize.plural)
@@ -174,21 +189,16 @@ def run_closed(ctx, trees=None):
                 d, _ = c16.nested(root, c08.enc)
                 roots.append(root)
                 dirs.append(d)
-            groups = ctx.model.batch([{"op": "c16.group", "dir": d, "excluded": t["excl"], "suffix": "events"}
-                                      for d, t in zip(dirs, chunk)])
             reqs, texts = [], []
-            for t, root, d, grp in zip(chunk, roots, dirs, groups):
-                if "bad-op" in grp:
-                    raise RuntimeError(f"driver: {grp}")
-                frames = []
-                for f in grp.get("datafiles", []):
-                    spec = {"path": os.path.join(root, *f["path"].split("/")), "onsets": t["onsets"][f["path"]],
-                            "merged": f["merged"] if f["has_sidecar"] else None}
-                    rq = real.request(spec, variant)
-                    frames.append([f["path"].split("/"), rq])
-                    texts += [x for r in rq["rows"] for x in r["cells"]]
+            for t, d in zip(chunk, dirs):
+                tables = []
+                for p, c in t["files"].items():
+                    if isinstance(c, str) and p.lower().endswith(".tsv"):
+                        header, rows = parse_tsv(c)
+                        tables.append([p.split("/"), header, rows])
                 texts.append(json.dumps(t["files"], ensure_ascii=False))
-                reqs.append({"dir": d, "excluded": t["excl"], "types": ["events"], "cfw": t["cfw"], "frames": frames})
+                reqs.append({"dir": d, "excluded": t["excl"], "types": ["events"], "cfw": t["cfw"], "tables": tables,
+                             "maskByRow": variant["maskByRow"], "guardDelay": variant["guardDelay"]})
             chars = sorted({c for x in texts for c in x if ord(c) > 127})
             env = dict(v.payload(chars), **c01.detect_variant(), ns="")
             ans = ctx.model.batch([dict(env, op="c16.closed", trees=reqs)])[0]
@@ -206,8 +216,8 @@ def run_closed(ctx, trees=None):
     ctx.extra["closed_rule"] = ("closed dataset stream: 1-2 subjects x 0-1 sessions x 1-2 tasks, sidecars at any level from "
                                 "closed C08's document generator (references, value and categorical columns, faults), events "
                                 "cells from c01's conforming / injected-fault strings via closed C07's fragments, excluded-name "
-                                "directories with faulty content; dataset issues computed inside Lean (Validate inside SidecarV / "
-                                "Tabular inside Bids); frames from the real TabularInput with the model's merged sidecar")
+                                "directories with faulty content; dataset issues computed inside Lean from the JSON and the raw "
+                                "cells only (Assemble, Tabular, SidecarV, Validate composed inside Bids)")
 
 
 def check_one(ctx, t, root, m, schema, BidsDataset):
@@ -244,9 +254,13 @@ def check_one(ctx, t, root, m, schema, BidsDataset):
         if any("unmodelled" in f for f in fs):
             skipped = True
             ctx.count("closed:objects-skipped-unmodelled", len(fs))
+            for f in fs:
+                if "unmodelled" in f:
+                    ctx.count("closed:skipped:" + f["kind"] + ":" + f["unmodelled"])
             continue
-        if any("raise" in f for f in fs):
-            ctx.disagree("validateDatasetClosed: a per-file step raises", {**case, "file": name}, [f.get("raise") for f in fs], "issues")
+        if any("raise" in f or "exc" in f for f in fs):
+            ctx.disagree("validateDatasetClosedRaw: a per-file step raises", {**case, "file": name},
+                         [f.get("raise") or f.get("exc") for f in fs], "issues")
             continue
         mine = sorted((i for f in fs for i in canon_model_file(f, t["cfw"])), key=c08.obs_key)
         theirs = impl.get(name, [])
@@ -255,7 +269,7 @@ def check_one(ctx, t, root, m, schema, BidsDataset):
         if mine:
             ctx.count(f"closed:{kind}-with-issues", 1)
         if mine != theirs:
-            ctx.disagree(f"validateDatasetClosed = BidsDataset.validate ({kind}, complete list for the file name)",
+            ctx.disagree(f"validateDatasetClosedRaw = BidsDataset.validate ({kind}, complete list for the file name)",
                          {**case, "file": name}, [x for x in mine if x not in theirs][:6], [x for x in theirs if x not in mine][:6])
     if skipped:
         ctx.count("closed:trees-with-unmodelled-object")
